@@ -114,9 +114,13 @@ def clause_env_module(interp):
     tab = {
         'spec': interp.load_module('spec'),
         'np': interp.load_module('numpy'),
+        'const': interp.load_module('pmutt.constants'),
         'log': Builtin('log', _elementwise(_log), pass_interp=True),
         'exp': Builtin('exp', _elementwise(_exp), pass_interp=True),
         'sqrt': Builtin('sqrt', _elementwise(_sqrt), pass_interp=True),
+        'at': Builtin('at', lambda it, r, i: it.getitem(r, i)
+                      if isinstance(r, (NDArr, list, tuple, GenArr))
+                      else r, pass_interp=True),
         'isclose': Builtin('isclose', lambda it, a, b, tol=None:
                            it.ops.equals(a, b), pass_interp=True),
     }
@@ -218,7 +222,10 @@ class Engine:
 
     # ------------------------------------------------------------ contract
     def verify(self, c):
-        for cfg in shape_configs(c.shapes):
+        shapes = c.shapes
+        if self.tier == 'thorough' and c.shapes_thorough:
+            shapes = c.shapes_thorough
+        for cfg in shape_configs(shapes):
             try:
                 if isinstance(c, Contract):
                     self._verify_contract(c, cfg)
